@@ -100,6 +100,10 @@ var c12Special = []struct {
 	{"empty", false, "", ""},
 	{"scheme-only", false, "https://", ""},
 	{"empty-authority-path-host", false, "https:///example.com", ""},
+	// values that name the foreign host evil.org but are not well-formed URLs
+	{"malformed-port", false, "https://evil.org:80a", "malformed"},
+	{"malformed-escape", false, "https://evil.org/%zz", "malformed"},
+	{"malformed-space-userinfo", false, "https://example.com @evil.org", "malformed"},
 }
 
 type c12Case struct {
@@ -112,6 +116,9 @@ type c12Case struct {
 	Origin     handshake.Origin `json:"origin"`
 	Patterns   []string         `json:"patterns"`
 	SkipVerify bool             `json:"skip_verify"`
+	// Malformed: Raw names Origin.Host but is not a well-formed URL; an endpoint may refuse it
+	// even where a pattern would authorise the host, and a refusal is a 403 like any other
+	Malformed bool `json:"malformed,omitempty"`
 	// SecondOrigin: a further Origin header line after the one described above
 	// (the request is judged by the first line, as the first value of a header is
 	// what names "the" origin; a request whose first line is authorised and whose
@@ -154,7 +161,11 @@ func c12Decode(idx int) c12Case {
 		cs.NoOrigin, cs.Hostless, cs.Raw = sp.Absent, !sp.Absent, sp.Value
 		cs.Patterns, cs.PatternKind, cs.SkipVerify = p.Set, p.Kind, skip == 1
 		cs.HostKind, cs.UserKind, cs.TailKind = "special:"+sp.Kind, "none", "none"
-		if sp.Second != "" {
+		if sp.Second == "malformed" {
+			cs.Hostless = false
+			cs.Origin = handshake.Origin{Scheme: "https", Host: "evil.org"}
+			cs.Malformed = true
+		} else if sp.Second != "" {
 			cs.Hostless = false
 			cs.Origin = handshake.Origin{Scheme: "https", Host: "evil.org"}
 			cs.SecondOrigin = sp.Second
@@ -215,7 +226,7 @@ func c12One(c *fw.Ctx, cs c12Case) (upgraded bool) {
 	hdr["Sec-Websocket-Version"] = []string{"13"}
 	hdr["Sec-Websocket-Key"] = []string{c11ValidKey}
 	raw := cs.Raw
-	if !cs.NoOrigin && !cs.Hostless {
+	if !cs.NoOrigin && !cs.Hostless && !cs.Malformed {
 		raw = cs.Origin.String() // replay files are authoritative on the parts, not on Raw
 	}
 	if !cs.NoOrigin && !cs.Hostless && cs.UserKind == "plain" {
@@ -263,6 +274,13 @@ func c12One(c *fw.Ctx, cs c12Case) (upgraded bool) {
 		return
 	}
 
+	if cs.Malformed && verdict == handshake.MustAccept && !cs.SkipVerify {
+		verdict, why = handshake.Unconstrained, "malformed-but-pattern-authorised"
+		if !accepted && w.status != http.StatusForbidden {
+			c.Violate("C12/refusal-status-not-403", fmt.Sprintf("%s: request refused (err=%v) with status %d, want 403", desc, err, w.status), cs)
+			return
+		}
+	}
 	switch verdict {
 	case handshake.MustAccept:
 		if !accepted {
